@@ -372,6 +372,8 @@ def allElems (l : List Bool) : Bool := l.all id
 inductive Rel
   | typeIs | typeUnderlyingIs | convertibleTo | assignableTo | implements | comparable
   | hasMethod | identicalTo | addressable | const
+  | sinkTypeIs            -- `m["$$"].SinkType.Is(T)`: delegated to the harness' own derivation of the sink + go/types identity
+  | textMatches | textCmp -- `Text.Matches(re)`, `Text == s` / `Text != s`: delegated to regexp / string comparison on the source text
 deriving DecidableEq, Repr, Inhabited
 
 /-- the relation on `typeofNode(params.subNode(v))`.  `stmt = false`: only an `ast.Expr` has a type there;
@@ -391,6 +393,10 @@ def relFilter (stmt : Bool) (r : Rel) (o : Oracle) : Bool :=
   | .convertibleTo | .assignableTo | .implements | .addressable | .const =>
     match o.onElems with | some l => allElems l | none => o.onSubExpr
   | .hasMethod | .identicalTo => o.onNode stmt
+  -- `makeRootSinkTypeIsFilter` reads the match node and its ancestors, `makeTextMatchesFilter` /
+  -- `makeTextConstFilter` read `nodeText(params.subNode(v))`: the node itself (an expression list is one
+  -- node: its text is the span of its elements, "" when empty), no list case
+  | .sinkTypeIs | .textMatches | .textCmp => o.onSubNode
 
 /-- a capture as the expression predicates see it -/
 inductive ExCap
